@@ -38,6 +38,7 @@ PYVC_MODULES = [
     "contracts.reshape",
     "contracts.fuse_entry",
     "contracts.fuselayout",
+    "contracts.dims",
 ]
 
 # Dependency closure: a property also rests on the functions its anchored code CALLS.  A contract task is run
